@@ -141,6 +141,10 @@ def decodeRune (src : Array UInt8) (i : Nat) : Nat × Nat :=
     else ((p0 - 0xF0) * 262144 + (b1 - 0x80) * 4096 + (b2 - 0x80) * 64 + (b3 - 0x80), 4)
   else (runeError, 1)
 
+/-- the rune that starts at offset i (EOF behind the end): what `next` puts into `s.ch` -/
+def runeAt (src : Array UInt8) (i : Nat) : Nat :=
+  if i < src.size then (if byteAt src i < 0x80 then byteAt src i else (decodeRune src i).1) else eofCh
+
 /-- `func (s *Scanner) next()` (line table side effects are not modelled; `lineOffset` is,
 because `//line` directives are only interpreted at the beginning of a line). -/
 def next (src : Array UInt8) (st : St) : St :=
